@@ -25,8 +25,8 @@ CLAIMED.update({
                      'and threshold reservations, wake-up discipline, reservation thresholds, stale-tolerant head-of-line '
                      'tests. Liveness under every interleaving is NOT decided (needs interleaving exploration).',
                 ref='5 (C11)'),
-    'C12': dict(cat='other', tech='static lockset (Eraser) rule over a derived thread/phase model + ownership typestate for heap blocks',
-                text='Every pair of conflicting accesses to a mutable global that may run in parallel (thread classes, '
+    'C12': dict(cat='other', tech='struct assignments (memcpy) as accesses to the heap objects involved; static lockset (Eraser) rule over a derived thread/phase model + ownership typestate for heap blocks',
+                text='Struct copies through pointers count as a read of the source object and a write of the destination object in the lockset and ownership rules. Every pair of conflicting accesses to a mutable global that may run in parallel (thread classes, '
                      'multiplicities and create/join phases are derived from the IR) shares a mutex; the parse-token baton '
                      'protecting `par` is verified structurally; unlocked accesses to heap blocks are legal only while the '
                      'task exclusively owns the block. Sound for file-scope state under the stated, checked assumptions; '
@@ -44,8 +44,8 @@ CLAIMED.update({
 })
 
 CLAIMED.update({
-    'C18': dict(cat='other', tech='must-definition dataflow over the per-operand initialisation prefix vs. run-written/read global locations (per mode), who-may-read/write rules',
-                text='Decides the state carry-over clause: every global location that run-time code of a mode writes and '
+    'C18': dict(cat='other', tech='cross-mode must-definition (what any mode's run code writes must be re-initialised in the prefix of the mode that reads it next); cli()/sti() pairing (shared with C16); must-definition dataflow over the per-operand initialisation prefix vs. run-written/read global locations (per mode), who-may-read/write rules',
+                text='State written by one mode's run code and read by another mode's (decompress one operand, copy the next) is covered; the signal window is closed on every path through the operand loop. Decides the state carry-over clause: every global location that run-time code of a mode writes and '
                      'reads upward-exposed is stored on every path of the next run\'s initialisation prefix (main-level '
                      'input_init/output_init, work(), schedule()/copy(), primary_thread up to init_io incl. the mode\'s '
                      'init callback), or is restored by construction / in a structurally verified exception table; no '
@@ -55,8 +55,8 @@ CLAIMED.update({
 })
 
 CLAIMED.update({
-    'C19': dict(cat='other', tech='guard-cut and interval extraction over the CFG of work(), provenance of call arguments, conservation law and must-definition analysis for copy mode',
-                text='Decides: the decompressor is entered exactly for a full 4-byte header in BZh1..BZh9 (interval derived '
+    'C19': dict(cat='other', tech='cross-mode must-definition for the copy pseudo-process; guard-cut and interval extraction over the CFG of work(), provenance of call arguments, conservation law and must-definition analysis for copy mode',
+                text='Flags left by a preceding decompression run (request_close, ...) must be re-initialised before the copy's threads start. Decides: the decompressor is entered exactly for a full 4-byte header in BZh1..BZh9 (interval derived '
                      'from the comparisons guarding the call); copy() is reachable only with -f and standard output and '
                      'everything else fails; the sniffed 0-4 bytes are written first with their true length; copy-mode '
                      'slot constants agree; the copy pipeline conserves buffers and output slots on every path; '
@@ -66,8 +66,8 @@ CLAIMED.update({
 })
 
 CLAIMED.update({
-    'C16': dict(cat='other', tech='dominance, must-pass-through, who-may-call and must-definition rules on the CFGs of main.c, signals.c, process.c',
-                text='Decides the ordering facts that leave only the two allowed end states: the input is removed only '
+    'C16': dict(cat='other', tech='CFG must-pass rule for the cli()/sti() window; dominance, must-pass-through, who-may-call and must-definition rules on the CFGs of main.c, signals.c, process.c',
+                text='Every path from cli() to the next operand or out of main() passes sti(). Decides the ordering facts that leave only the two allowed end states: the input is removed only '
                      'after work(), metadata calls, a successful close() and the clearing of the output name; outputs are '
                      'created exclusively and their name recorded before anything else can fail; every abnormal exit of '
                      'the main thread passes cleanup(); sub-threads cannot reach _exit/unlink; signals are deliverable only '
@@ -171,8 +171,8 @@ CLAIMED.update({
 })
 
 CLAIMED.update({
-    'C02': dict(cat='other', tech='provenance of header/trailer bytes and encoder capacities, per-block advance/fold pairing and write-back (must-store) rule in collect(), who-writes rule and formula of the combined CRC, finite-domain tabulation of the dummy second table from the IR, compile-time witnesses',
-                text='Decides: header = "BZh" + (\'0\'+level), trailer = 0x177245385090 + combined_crc msb first; every '
+    'C02': dict(cat='other', tech='abstract interpretation of collect()/encode() against the run-length packer (rules capacity/fourth/data/count/carry/consumed/crc/flush, shared with C04); loop-guard bound of the code lengths; provenance of header/trailer bytes and encoder capacities, per-block advance/fold pairing and write-back (must-store) rule in collect(), who-writes rule and formula of the combined CRC, finite-domain tabulation of the dummy second table from the IR, compile-time witnesses',
+                text='What goes into a block is decided by the abstract walk of collect()/encode() built for C04: stores only at the fill cursor and with room, a fourth copy only with its count, counts equal to run length - 4, no block closed with a run of four open, the owed count written by encode(), the saved CRC covering exactly the bytes in the block; every code length assign_codes() stores is bounded by 20 through the loop guards. Decides: header = "BZh" + (\'0\'+level), trailer = 0x177245385090 + combined_crc msb first; every '
                      'encoder_init/encoder_alloc_size site (both collecting tasks) and the input chunk use level*100000; in '
                      'collect() every consumed input byte is folded into the block CRC in the same step, the single un-get '
                      'restores the CRC saved before that fold, an advanced copy of the run state is written back on every '
